@@ -415,6 +415,68 @@ theorem history_meets_spec [DecidableEq B] [DecidableEq R] (c : Codec B R) (call
     simp only [trace, traceSpec, Bool.and_eq_true]
     exact ⟨refine_meets_spec c st call hp, ih _ ht⟩
 
+/-- **steps_meet_spec**: histories in which the user re-reads the model between calls (`reload()`, `read_file()` of a
+    rewritten file — with or without ACTA, with another ACTA): every call meets the specification with respect to the
+    model as it is right before that call. -/
+theorem steps_meet_spec [DecidableEq B] [DecidableEq R] (c : Codec B R) (steps : List (Step B)) :
+    ∀ st : St B R, stepsPlausible c st steps = true →
+      ∀ e ∈ traceSteps Fix.all c st steps, specStep c e.1 e.2.1 e.2.2 = true := by
+  induction steps with
+  | nil => intro st _ e he; simp [traceSteps] at he
+  | cons s t ih =>
+    intro st hp e he
+    cases s with
+    | call k =>
+      simp only [stepsPlausible, Bool.and_eq_true] at hp
+      simp only [traceSteps, List.mem_cons] at he
+      rcases he with rfl | he
+      · exact refine_meets_spec c st k hp.1
+      · exact ih _ hp.2 e he
+    | load w =>
+      simp only [stepsPlausible, traceSteps] at hp he
+      cases hl : load c st w with
+      | none => simp [hl] at he
+      | some st' =>
+        rw [hl] at hp he
+        exact ih st' hp e he
+
+/-- how a call that is not a completed good run ends -/
+theorem exc_of_not_ok (c : Codec B R) (st : St B R) (call : Call B)
+    (hp : plausible c st.fs.res call.out = true)
+    (hok : (started st call && !failed c st.fs.res call.out) = false) :
+    (refine Fix.all c st call).exc ≠ none := by
+  by_cases hst : started st call = true
+  · have hf : failed c st.fs.res call.out = true := by simp_all
+    have h := runShelxl_failed c { st.fs with ins := some (write Fix.all c (insMem st call)) } call
+      (by simpa [started] using hst) hp hf
+    rw [(refine_exc_of_run_some Fix.all c st call _ _ h).1]; simp
+  · have hst' : started st call = false := by simpa using hst
+    have h := runShelxl_not_started Fix.all c { st.fs with ins := some (write Fix.all c (insMem st call)) } call
+      (by simpa [started] using hst')
+    rw [(refine_exc_of_run_some Fix.all c st call _ _ h).1]; simp
+
+/-- **no_acta_from_nowhere**: a model without ACTA has none after the call either, unless the result file SHELXL left
+    carries one — whatever earlier calls on the same object took out of earlier models. -/
+theorem no_acta_from_nowhere (c : Codec B R) (st : St B R) (call : Call B)
+    (hp : plausible c st.fs.res call.out = true) (ha : st.mem.doc.acta = none) :
+    (refine Fix.all c st call).st.mem.doc.acta = none ∨
+    ∃ b, left st.fs.res call.out.res = some b ∧ (refine Fix.all c st call).st.mem.doc.acta = (c.parse b).1.acta := by
+  by_cases hok : (started st call && !failed c st.fs.res call.out) = true
+  · have hst : started st call = true := by simp_all
+    have hf : failed c st.fs.res call.out = false := by simp_all
+    obtain ⟨b, hb, _, _, hm⟩ := success_reloads c st call hst hp hf
+    exact Or.inr ⟨b, hb, by rw [hm]; simp [reloaded, ha]⟩
+  · exact Or.inl ((failure_keeps_model c st call (exc_of_not_ok c st call hp (by simpa using hok))).2.2 ha)
+
+/-- good run of a model with ACTA, re-read of the ACTA-free result, crash, re-read of a file with ACTA, good run -/
+def wSteps : List (Step Nat) :=
+  [.call ⟨some 4, true, good 60⟩, .load none, .call ⟨none, true, ⟨-9, .wrote 30, .missing⟩⟩, .load (some 71),
+   .call ⟨some 2, false, good 80⟩]
+
+example : stepsPlausible wc wSt wSteps = true ∧ (traceSteps Fix.all wc wSt wSteps).length = 3 ∧
+    (traceSteps Fix.all wc wSt wSteps).map (fun e => (e.1.mem.doc.acta, e.2.2.st.mem.doc.acta)) =
+      [(some ⟨5, 3⟩, some ⟨5, 1⟩), (none, none), (some ⟨5, 3⟩, some ⟨5, 1⟩)] := by decide
+
 /-- every call takes a backup -/
 def allBackup : List (Call B) → Bool
   | [] => true
